@@ -1,106 +1,38 @@
-import FpgoVerif.Model.C15Cor
-import FpgoVerif.Proofs.C15Tac
-/-! Invariants of the coroutine system (callers in YieldFrom + the finishing target). -/
+import FpgoVerif.Proofs.C15CorStep0
+import FpgoVerif.Proofs.C15CorStep1
+import FpgoVerif.Proofs.C15CorStep2
+import FpgoVerif.Proofs.C15CorStep3
+import FpgoVerif.Proofs.C15CorStep4
+import FpgoVerif.Proofs.C15CorStep5
+import FpgoVerif.Proofs.C15CorStep6
+import FpgoVerif.Proofs.C15CorStep7
+/-! Cor system: assembly of the per-program-counter preservation lemmas (C15CorStep*.lean, built in
+    parallel), reachability, progress. -/
 namespace FpgoVerif.C15.Co
 
-theorem gstep_some {s pc ch s' nx} (h : gstep s pc ch = some (s', nx)) :
-    0 < s.cnt (kind pc) ∧ ∃ s1, step s ch pc = some (s1, nx) ∧ s' = { s1 with cnt := move s1.cnt (kind pc) nx } := by
-  unfold gstep at h
-  split at h
-  · simp at h
-  · rename_i hc
-    split at h
-    · simp at h
-    · rename_i s1 nx1 hs
-      simp at h
-      obtain ⟨rfl, rfl⟩ := h
-      exact ⟨Nat.pos_of_ne_zero hc, s1, hs, rfl⟩
-
-structure Inv (s : St) : Prop where
-  nopanic : s.panic = false
-  gOne : s.cnt .g1 + s.cnt .g2 + s.cnt .gc0 + s.cnt .gc1 + s.cnt .gc2 + s.cnt .gc3 ≤ 1
-  idle0 : s.gIdle = true → s.cnt .g1 + s.cnt .g2 + s.cnt .gc0 + s.cnt .gc1 + s.cnt .gc2 + s.cnt .gc3 = 0
-  ret0 : s.retStarted = false → s.cnt .gc0 + s.cnt .gc1 + s.cnt .gc2 + s.cnt .gc3 = 0 ∧ s.gflag = false
-  retG : s.retStarted = true → s.cnt .g1 + s.cnt .g2 = 0 ∧ s.gIdle = false
-  gcflag : 0 < s.cnt .gc1 + s.cnt .gc2 + s.cnt .gc3 → s.gflag = true
-  opc : s.opClosed = true → s.gflag = true ∧ s.cnt .r1 = 0 ∧ s.cnt .gc0 + s.cnt .gc1 + s.cnt .gc2 = 0
-  done : s.closeDone = true → s.gflag = true ∧ s.opClosed = true ∧ s.cnt .gc3 = 0
-  late0 : s.late = 0
-  dn : s.fixed = true → 0 < s.cnt .gc2 + s.cnt .gc3 → s.doneClosed = true
-  gc3op : 0 < s.cnt .gc3 → s.opClosed = true
-  retDone : s.retStarted = true → s.cnt .gc0 + s.cnt .gc1 + s.cnt .gc2 + s.cnt .gc3 = 0 → s.closeDone = true
-  drained : s.fixed = true → s.closeDone = true → s.opCh = []
-  wcount : s.cnt .w = s.answers.length + s.opCh.length + s.cnt .g2
-
-theorem inv_init (cap : Nat) (f : Bool) : Inv (init cap f) := by
-  constructor <;> simp [init]
-
-set_option maxHeartbeats 1600000 in
 theorem inv_spawn {s s' pc} (h : spawn s pc = some s') (hi : Inv s) : Inv s' := by
-  obtain ⟨nopanic, gOne, idle0, ret0, retG, gcflag, opc, done, late0, dn, gc3op, retDone, drained, wcount⟩ := hi
-  cases pc <;> simp [spawn, inc] at h
-  all_goals (try (obtain ⟨hs, rfl⟩ := h))
-  all_goals (try subst h)
-  all_goals (
-    have b1 := Bool.toNat_le s.gflag; have b2 := Bool.toNat_le s.opClosed; have b3 := Bool.toNat_le s.gIdle
-    have b4 := Bool.toNat_le s.retStarted; have b5 := Bool.toNat_le s.closeDone; have b6 := Bool.toNat_le s.fixed
-    have b7 := Bool.toNat_le s.doneClosed; have b8 := Bool.toNat_le s.panic
-    constructor <;> (try simp [updK]) <;> first | c15arith | (intro h1 h2; exact drained h1 h2))
+  have hcover : pcGroup pc = 0 ∨ pcGroup pc = 1 ∨ pcGroup pc = 2 ∨ pcGroup pc = 3 ∨ pcGroup pc = 4 ∨ pcGroup pc = 5 ∨ pcGroup pc = 6 ∨ pcGroup pc = 7 := by cases pc <;> simp [pcGroup]
+  rcases hcover with hg | hg | hg | hg | hg | hg | hg | hg
+  · exact inv_spawn_0 hg h hi
+  · exact inv_spawn_1 hg h hi
+  · exact inv_spawn_2 hg h hi
+  · exact inv_spawn_3 hg h hi
+  · exact inv_spawn_4 hg h hi
+  · exact inv_spawn_5 hg h hi
+  · exact inv_spawn_6 hg h hi
+  · exact inv_spawn_7 hg h hi
 
-theorem eraseP_len {l : List (Nat × Nat)} {id : Nat} {a} (h : l.find? (·.1 == id) = some a) :
-    (l.eraseP (·.1 == id)).length + 1 = l.length := by
-  have hany : l.any (·.1 == id) = true := by
-    rw [List.any_eq_true]
-    exact ⟨a, List.mem_of_find?_eq_some h, by have := List.find?_some h; simpa using this⟩
-  have hpos : 0 < l.length := by
-    cases l with
-    | nil => simp at h
-    | cons _ _ => simp
-  rw [List.length_eraseP, if_pos hany]; omega
-
-set_option maxHeartbeats 3200000 in
 theorem inv_step {s s' nx pc ch} (h : gstep s pc ch = some (s', nx)) (hi : Inv s) : Inv s' := by
-  obtain ⟨nopanic, gOne, idle0, ret0, retG, gcflag, opc, done, late0, dn, gc3op, retDone, drained, wcount⟩ := hi
-  obtain ⟨hc, s1, hs, rfl⟩ := gstep_some h
-  clear h
-  have b1 := Bool.toNat_le s.gflag; have b2 := Bool.toNat_le s.opClosed; have b3 := Bool.toNat_le s.gIdle
-  have b4 := Bool.toNat_le s.retStarted; have b5 := Bool.toNat_le s.closeDone; have b6 := Bool.toNat_le s.fixed
-  have b7 := Bool.toNat_le s.doneClosed; have b8 := Bool.toNat_le s.panic
-  cases pc <;> simp only [step, kind] at hs hc
-  case w id =>
-    split at hs
-    · rename_i a y hf
-      simp only [Option.some.injEq, Prod.mk.injEq] at hs
-      obtain ⟨rfl, rfl⟩ := hs
-      have hl := eraseP_len hf
-      constructor <;> (try simp [move, kind, updK]) <;> c15arith
-    · simp at hs
-  case g1 y =>
-    split at hs
-    · rename_i id x rest heq
-      simp only [Option.some.injEq, Prod.mk.injEq] at hs
-      obtain ⟨rfl, rfl⟩ := hs
-      have hl : s.opCh.length = rest.length + 1 := by rw [heq]; simp
-      have hne : s.opCh ≠ [] := by rw [heq]; simp
-      constructor <;> (try simp [move, kind, updK]) <;> first | c15arith | (intro h1 h2; exact absurd (drained h1 h2) hne)
-    · simp at hs
-  case gc3 =>
-    split at hs
-    · rename_i id x rest heq
-      simp only [Option.some.injEq, Prod.mk.injEq] at hs
-      obtain ⟨rfl, rfl⟩ := hs
-      have hl : s.opCh.length = rest.length + 1 := by rw [heq]; simp
-      have hne : s.opCh ≠ [] := by rw [heq]; simp
-      constructor <;> (try simp [move, kind, updK]) <;> first | c15arith | (intro h1 h2; exact absurd (drained h1 h2) hne)
-    · rename_i heq
-      simp only [Option.some.injEq, Prod.mk.injEq] at hs
-      obtain ⟨rfl, rfl⟩ := hs
-      constructor <;> (try simp [move, kind, updK]) <;> first | c15arith | (intros; exact heq)
-  all_goals (repeat' split at hs)
-  all_goals (try (simp only [Option.some.injEq, Prod.mk.injEq] at hs))
-  all_goals (try (obtain ⟨rfl, rfl⟩ := hs))
-  all_goals (try (simp at hs))
-  all_goals (constructor <;> (try simp [move, kind, updK]) <;> first | c15arith | (intro h1 h2; have := drained h1 h2; simp_all))
+  have hcover : pcGroup pc = 0 ∨ pcGroup pc = 1 ∨ pcGroup pc = 2 ∨ pcGroup pc = 3 ∨ pcGroup pc = 4 ∨ pcGroup pc = 5 ∨ pcGroup pc = 6 ∨ pcGroup pc = 7 := by cases pc <;> simp [pcGroup]
+  rcases hcover with hg | hg | hg | hg | hg | hg | hg | hg
+  · exact inv_step_0 hg h hi
+  · exact inv_step_1 hg h hi
+  · exact inv_step_2 hg h hi
+  · exact inv_step_3 hg h hi
+  · exact inv_step_4 hg h hi
+  · exact inv_step_5 hg h hi
+  · exact inv_step_6 hg h hi
+  · exact inv_step_7 hg h hi
 
 theorem inv_reach {cap f s} (h : Reach cap f s) : Inv s := by
   induction h with
